@@ -199,12 +199,32 @@ def in_band(q):
     return band_count(q) > 0
 
 
-def rtol_for(q, tight=None):
-    """Relative tolerance for an identity that compares the oracle's exact kinematics with the library's: the stated
-    one, or 5e-6 per joint value in the NearZero band (each dropped rotation of < 2e-6 rad moves everything downstream
-    by that much; quadratic forms in it change by at most twice that)."""
+def band_tol(q, rtol, natural, bound):
+    """rtol * natural scale -- or, when k joint values lie in the NearZero band, 5e-6 * k * bound, where ``bound`` is a
+    configuration-independent (generous) bound of the same quantity.  Why not 5e-6 of the natural scale: the library's
+    MatrixExp6 replaces exp([A]t), |t| < 1e-6, by [I, v t]: everything downstream of that joint is turned back by t about
+    a reference point (the link-frame origin in the Newton-Euler recursion, the SPACE origin in FKinSpace-based code
+    such as Arm.massMatrix / inverseDynamicsC).  A point at distance d from the reference point moves by t*d; a lever
+    arm l changes by t*d/l relatively, which is not bounded by any fixed multiple of t.  The bound uses the largest
+    distance D of any frame origin / centre of mass / joint axis from the space origin instead of the lever arms."""
     k = band_count(q)
-    return (TIGHT if tight is None else tight) if k == 0 else LOOSE * k
+    return rtol * natural if k == 0 else max(rtol * natural, LOOSE * k * bound)
+
+
+class Reach:
+    """D = largest distance from the space origin of any link-frame origin, tool origin, centre of mass or joint axis at
+    q;  Mb = 36 (2+2D)^2 sum_i max|G_i| bounds every entry of M (|J_i| <= 1+2D entrywise, 6x6 forms) with room for the
+    first-order change under a dropped rotation;  lever = 6 (2+2D) bounds moment arms."""
+
+    def __init__(self, S, homes, Gl, q):
+        Js, Ts = kin(S, homes, q)
+        pts = [T[:3, 3] for T in Ts]
+        pts += [Ts[i][:3, :3] @ mass_com(Gl[i])[1] + Ts[i][:3, 3] for i in range(S.shape[1])]
+        pts += [np.cross(Js[:3, j], Js[3:, j]) for j in range(S.shape[1])]
+        self.D = max(float(np.sqrt(np.dot(p, p))) for p in pts)
+        self.lever = 6.0 * (2.0 + 2.0 * self.D)
+        self.Mb = 36.0 * (2.0 + 2.0 * self.D) ** 2 * sum(amax(Gi) for Gi in Gl)
+        self.mass = sum(mass_com(Gi)[0] for Gi in Gl)
 
 
 def vec_out(x, n, what):
@@ -297,12 +317,35 @@ class Terms:
         self.s_g = gravity_scale(S, homes, Gl, g, q)
         self.s_e = amax(self.Jt) * norm1(F)
 
+        self.reach = Reach(S, homes, Gl, q)
+        self.q, self.qd, self.gvec, self.F = q, qd, g, F
+
     def scale(self, qdd, tau=None):
         s = (self.s_M * norm1(qdd) + self.s_c + self.s_g + self.s_e
              + amax(self.M) * norm1(qdd) + amax(self.c) + amax(self.g) + amax(self.e))
         if tau is not None:
             s += amax(tau)
         return s
+
+    def bound(self, qdd, tau=None):
+        r = self.reach
+        s = (r.Mb * (norm1(qdd) + 6.0 * norm1(self.qd) ** 2)
+             + r.lever * (r.mass * norm1(self.gvec) + norm1(self.F)))
+        if tau is not None:
+            s += amax(tau)
+        return s
+
+    def tol_tau(self, qdd, tau=None):
+        """Tolerance for a torque identity that mixes kinematic conventions (oracle vs library, or two library
+        implementations that linearise the NearZero band differently)."""
+        return band_tol(self.q, TIGHT, self.scale(qdd, tau), self.bound(qdd, tau))
+
+    def tol_acc(self, qdd, tau=None):
+        lam = self.lam_min()
+        return band_tol(self.q, TIGHT, max(amax(qdd), self.scale(qdd, tau) / lam), max(amax(qdd), self.bound(qdd, tau) / lam))
+
+    def tol_M(self):
+        return band_tol(self.q, TIGHT, self.s_M, self.reach.Mb)
 
     def lam_min(self):
         return float(np.linalg.eigvalsh(self.Mor)[0])
@@ -337,7 +380,7 @@ def c_mass(case, ctx):
     ctx.label("cond(M) " + (decade(lam[-1] / lam[0]) if lam[0] > 0 else "<=0"))
     if not lam[0] > 0:
         raise Violation("MassMatrix not positive definite: lambda_min = %.6g (lambda_max %.6g)" % (lam[0], lam[-1]))
-    close(M, Mor, rtol_for(q) * sc, "MassMatrix vs sum_i J_i^T G_i J_i")
+    close(M, Mor, band_tol(q, TIGHT, sc, Reach(S, homes, Gl, q).Mb), "MassMatrix vs sum_i J_i^T G_i J_i")
 
 
 def c_fd_id(case, ctx):
@@ -373,10 +416,9 @@ def c_decomposition(case, ctx):
     tau = vec_out(sut(m.InverseDynamics, q, qd, qdd, g, F, Ml, Gl, S), n, "InverseDynamics")
     close(tau, t.M @ qdd + t.c + t.g + t.e, TIGHT * t.scale(qdd, tau), "InverseDynamics vs M qdd + c + g + J^T F (library terms)")
     # the tip term against the oracle's body Jacobian of the tool frame
-    rtol = rtol_for(q)
-    close(t.e, t.Jt.T @ F, rtol * t.s_e, "EndEffectorForces vs J_b(tool)^T Ftip")
+    close(t.e, t.Jt.T @ F, band_tol(q, TIGHT, t.s_e, t.reach.lever * norm1(F)), "EndEffectorForces vs J_b(tool)^T Ftip")
     # and the whole with the oracle's M and J^T where the library's c and g are kept
-    close(tau, t.Mor @ qdd + t.c + t.g + t.Jt.T @ F, rtol * t.scale(qdd, tau),
+    close(tau, t.Mor @ qdd + t.c + t.g + t.Jt.T @ F, t.tol_tau(qdd, tau),
           "InverseDynamics vs M_oracle qdd + c + g + J_oracle^T F")
 
 
@@ -396,7 +438,7 @@ def c_passivity(case, ctx):
     rhs = 0.5 * float(qd @ Mdot @ qd)
     sc = norm1(qd * c) + norm1(qd) ** 3 * amax(mass_oracle(S, homes, Gl, q))
     ctx.note("qd.c", lhs)
-    tol = rtol_for(q, FDTOL) * sc + UNDERFLOW
+    tol = band_tol(q, FDTOL, sc, 6.0 * Reach(S, homes, Gl, q).Mb * norm1(qd) ** 3 + norm1(qd * c)) + UNDERFLOW
     if not math.isfinite(lhs) or abs(lhs - rhs) > tol:
         raise Violation("qd.c = %.12g but 1/2 qd^T Mdot qd = %.12g (diff %.3g > tol %.3g)" % (lhs, rhs, abs(lhs - rhs), tol))
 
@@ -411,7 +453,8 @@ def c_gravity(case, ctx):
     glib = vec_out(sut(mr().GravityForces, q, g, Ml, Gl, S), n, "GravityForces")
     grad = np.array([float(O.richardson(lambda x: potential(S, homes, Gl, g, x), q, i)) for i in range(n)])
     sc = gravity_scale(S, homes, Gl, g, q)
-    close(glib, grad, rtol_for(q, FDTOL) * sc, "GravityForces vs grad P")
+    r = Reach(S, homes, Gl, q)
+    close(glib, grad, band_tol(q, FDTOL, sc, r.lever * r.mass * norm1(g)), "GravityForces vs grad P")
 
 
 def _rk4_energy(S, Ml, Gl, homes, g, q0, qd0, steps, dt):
@@ -469,6 +512,10 @@ def c_energy(case, ctx):
     if out:
         ctx.skip("trajectory leaves [-pi, pi]^n within 0.2 s")
     tol = (LOOSE if band else FDTOL) * sc
+    if in_band(q):
+        # the start itself lies in the band: the library integrates a mechanism that differs by the dropped rotations
+        r = Reach(S, homes, Gl, q)
+        tol = band_tol(q, FDTOL, sc, max(sc, r.Mb * max(norm1(qd), 1.0) ** 2 + r.lever * r.mass * norm1(g)))
     ctx.label("drift/scale " + decade(d1 / sc))
     ctx.note("drift", d1)
     ctx.note("scale", sc)
@@ -596,7 +643,7 @@ def c_arm_id_agree(case, ctx):
     q, qd, qdd, g, F = arm_state(case)
     t = Terms(rig.S, rig.Mlist, rig.Glist, rig.homes, q, qd, g, F)
     ref = vec_out(sut(mr().InverseDynamics, q, qd, qdd, g, F, rig.Mlist, rig.Glist, rig.S), n, "fmr.InverseDynamics")
-    tol = rtol_for(q) * t.scale(qdd, ref)
+    tol = t.tol_tau(qdd, ref)
     out = rig.call(arm.inverseDynamics, case, q, qd, qdd)
     if not isinstance(out, tuple) or len(out) != 5:
         raise Violation("Arm.inverseDynamics: expected (tau, A, V, Vdot, F)")
@@ -608,7 +655,7 @@ def c_arm_id_agree(case, ctx):
             raise Violation("Arm.inverseDynamicsC: expected (tau, M, G)")
         close(vec_out(outc[0], n, "Arm.inverseDynamicsC"), ref, tol, "Arm.inverseDynamicsC vs fmr.InverseDynamics")
         Mc = np.asarray(outc[1], dtype=float)
-        close(Mc, t.M, rtol_for(q) * amax(t.M), "mass matrix returned by inverseDynamicsC vs fmr.MassMatrix")
+        close(Mc, t.M, t.tol_M(), "mass matrix returned by inverseDynamicsC vs fmr.MassMatrix")
 
 
 def c_arm_id_emr(case, ctx):
@@ -619,7 +666,7 @@ def c_arm_id_emr(case, ctx):
     q, qd, qdd, g, F = arm_state(case)
     t = Terms(rig.S, rig.Mlist, rig.Glist, rig.homes, q, qd, g, F)
     ref = vec_out(sut(mr().InverseDynamics, q, qd, qdd, g, F, rig.Mlist, rig.Glist, rig.S), n, "fmr.InverseDynamics")
-    tol = rtol_for(q) * t.scale(qdd, ref)
+    tol = t.tol_tau(qdd, ref)
     tau = rig.call(arm.inverseDynamicsEMR, case, q, qd, qdd)
     close(vec_out(tau, n, "Arm.inverseDynamicsEMR"), ref, tol, "Arm.inverseDynamicsEMR vs fmr.InverseDynamics")
     out = rig.call(arm.inverseDynamics, case, q, qd, qdd)
@@ -637,7 +684,7 @@ def c_arm_mass(case, ctx):
     Mmr = np.asarray(sut(mr().MassMatrix, q, rig.Mlist, rig.Glist, rig.S), dtype=float)
     Mor = mass_oracle(rig.S, rig.homes, rig.Glist, q)
     sc = amax(Mor)
-    tol = rtol_for(q) * sc
+    tol = band_tol(q, TIGHT, sc, Reach(rig.S, rig.homes, rig.Glist, q).Mb)
     close(M, Mmr, tol, "Arm.massMatrix vs fmr.MassMatrix")
     close(M, Mor, tol, "Arm.massMatrix vs sum_i J_i^T G_i J_i")
     close(M, M.T, TIGHT * sc, "Arm.massMatrix symmetric")
@@ -669,15 +716,12 @@ def _arm_fd(case, ctx, which):
 
     name = "forwardDynamicsE" if which == "E" else "forwardDynamics"
     tau_id = idyn(qdd)
-    sc = max(amax(qdd), t.scale(qdd, tau_id) / lam)
-    close(fd(tau_id), qdd, rtol_for(q) * sc, "Arm.%s(Arm.inverseDynamics(qdd)) vs qdd" % name)
+    close(fd(tau_id), qdd, t.tol_acc(qdd, tau_id), "Arm.%s(Arm.inverseDynamics(qdd)) vs qdd" % name)
     qdd_fd = fd(tau_in)
-    close(idyn(qdd_fd), tau_in, rtol_for(q) * t.scale(qdd_fd, tau_in),
-          "Arm.inverseDynamics(Arm.%s(tau)) vs tau" % name)
+    close(idyn(qdd_fd), tau_in, t.tol_tau(qdd_fd, tau_in), "Arm.inverseDynamics(Arm.%s(tau)) vs tau" % name)
     # and against the MR forward dynamics on the corresponding lists
     ref = vec_out(sut(mr().ForwardDynamics, q, qd, tau_in, g, F, rig.Mlist, rig.Glist, rig.S), n, "fmr.ForwardDynamics")
-    sc2 = max(amax(ref), t.scale(ref, tau_in) / lam)
-    close(qdd_fd, ref, rtol_for(q) * sc2, "Arm.%s vs fmr.ForwardDynamics" % name)
+    close(qdd_fd, ref, t.tol_acc(ref, tau_in), "Arm.%s vs fmr.ForwardDynamics" % name)
 
 
 def c_arm_fd(case, ctx):
@@ -825,15 +869,15 @@ def arm_cases(draw, need_tau=False):
 
 
 CLAUSES = [
-    Clause("mass_matrix_spd_composite", c_mass, mr_cases(keys=()), 400, 16 * 1500),
-    Clause("fd_inverts_id", c_fd_id, mr_cases(), 300, 16 * 1500),
-    Clause("torque_decomposition", c_decomposition, mr_cases(keys=("qd", "qdd", "g", "F")), 300, 16 * 1500),
-    Clause("coriolis_passivity", c_passivity, mr_cases(keys=("qd",)), 200, 16 * 600),
-    Clause("gravity_is_potential_gradient", c_gravity, mr_cases(keys=("g",)), 300, 16 * 1500),
-    Clause("energy_conserved", c_energy, energy_cases(), 40, 16 * 60, shrink_quick=False),
-    Clause("arm_id_implementations_agree", c_arm_id_agree, arm_cases(), 200, 16 * 800),
-    Clause("arm_id_emr_agrees", c_arm_id_emr, arm_cases(), 200, 16 * 800),
-    Clause("arm_mass_matrix", c_arm_mass, arm_cases(), 200, 16 * 800),
-    Clause("arm_forwardDynamics_inverts", c_arm_fd, arm_cases(need_tau=True), 150, 16 * 600),
-    Clause("arm_forwardDynamicsE_inverts", c_arm_fde, arm_cases(need_tau=True), 150, 16 * 600),
+    Clause("mass_matrix_spd_composite", c_mass, mr_cases(keys=()), 300, 16 * 1000),
+    Clause("fd_inverts_id", c_fd_id, mr_cases(), 250, 16 * 1000),
+    Clause("torque_decomposition", c_decomposition, mr_cases(keys=("qd", "qdd", "g", "F")), 250, 16 * 1000),
+    Clause("coriolis_passivity", c_passivity, mr_cases(keys=("qd",)), 160, 16 * 500),
+    Clause("gravity_is_potential_gradient", c_gravity, mr_cases(keys=("g",)), 250, 16 * 1000),
+    Clause("energy_conserved", c_energy, energy_cases(), 32, 16 * 50, shrink_quick=False),
+    Clause("arm_id_implementations_agree", c_arm_id_agree, arm_cases(), 160, 16 * 600),
+    Clause("arm_id_emr_agrees", c_arm_id_emr, arm_cases(), 120, 16 * 500),
+    Clause("arm_mass_matrix", c_arm_mass, arm_cases(), 160, 16 * 600),
+    Clause("arm_forwardDynamics_inverts", c_arm_fd, arm_cases(need_tau=True), 120, 16 * 500),
+    Clause("arm_forwardDynamicsE_inverts", c_arm_fde, arm_cases(need_tau=True), 120, 16 * 500),
 ]
